@@ -338,7 +338,27 @@ class Check:
         replay_obj.update({"property": self.pid, "what": what, "seed": self.seed, "no_failing_input_found": True})
         self.violations.append((what, self.replay_path(replay_obj), True))
 
-    def finish(self, coverage, assumptions=(), level="proof", checker_cmd=None, trusted_base=None):
+    def coqchk(self, files=("Properties",), timeout=1500):
+        """Independent re-check of the compiled property files (and everything they
+        depend on) with coqchk; thorough tier only. Returns a short summary string."""
+        mods = ["%s.%s" % (self.engine, f) for f in files]
+        rc, out = sh(["coqchk", "-silent", "-o", "-Q", ".", self.engine] + mods, cwd=self.coqdir, timeout=timeout)
+        if rc == 124:
+            return "coqchk: timed out after %ds (not counted)" % timeout
+        m = re.search(r"\* Axioms:(.*?)\n\s*\n\* Constants", out, re.S)
+        axioms = " ".join(m.group(1).split()) if m else "?"
+        if rc != 0:
+            self.coq_ok = False
+            self.coq_error = "coqchk rejected the compiled development: " + out[-800:]
+            return "coqchk: FAILED"
+        return "coqchk: ok; axioms of all loaded libraries: %s" % axioms
+
+    def finish(self, coverage, assumptions=(), level="proof", checker_cmd=None, trusted_base=None, coqchk_files=("Properties",)):
+        if self.tier == "thorough" and self.coq_ok and not os.environ.get("VERIF_NO_COQCHK"):
+            summary = self.coqchk(coqchk_files)
+            self.notes.append(summary)
+            if not self.coq_ok and not self.violations:
+                self.unproved(self.coq_error, {"broken": "coqchk", "detail": self.coq_error})
         wall = time.time() - self.t0
         for f in self.findings:
             sig = f.get("signature")
@@ -399,4 +419,4 @@ def parse_coq_list_of_nat(out, name):
     body = m.group(1).strip()
     if not body:
         return []
-    return [int(x.strip().rstrip("%N").rstrip("%Z").rstrip("%nat")) for x in re.split(r";", body) if x.strip()]
+    return [int(re.sub(r"%\w+$", "", x.strip())) for x in re.split(r";", body) if x.strip()]
